@@ -229,6 +229,13 @@ def nls_family(env):
     z, y = s(x, u)
     env.eq('forward is f(x, u, t)', z, f(x, u, tt)); env.eq('observation is g(x, u, t)', y, g(x, u, tt))
     env.eq('time advanced by one', s.systime, ts + 1)
+    # an explicit reference time is used as given - also t* = 0 (0-d and 1-element tensor) while the clock is elsewhere
+    for form, zero in (('0-d tensor', T.tensor(0) if env.sym else T.tensor(0., dtype=xs.dtype)), ('1-element tensor', T.tensor([0]) if env.sym else T.tensor([0.], dtype=xs.dtype))):       # t is documented as a Tensor (a python int is rejected by atleast_1d)
+        s2 = Sys(); s2.systime = 3
+        s2.set_refpoint(xs, us, zero)
+        z0 = T.tensor(0) if env.sym else T.tensor(0., dtype=xs.dtype)
+        env.eq(f't* = 0 given as a {form}, clock at 3: affine model reproduces f(x*, u*, 0)', s2.A @ xs + s2.B @ us + s2.c1, f(xs, us, z0))
+        env.eq(f't* = 0 given as a {form}, clock at 3: affine model reproduces g(x*, u*, 0)', s2.C @ xs + s2.D @ us + s2.c2, g(xs, us, z0))
 
 
 @obligation('C15.canary.observation_after_transition', functions=[f'{DYN}:LTI.observation'], canary=True)
